@@ -403,6 +403,40 @@ Check C07_relation_formatter : forall rf, RelGrammar.wf_rfield true rf = true ->
   no_eol o = true /\ match o with [] => True | ch :: _ => is_indent ch = false end.
 Print Assumptions C07_relation_formatter.
 
+(* 10. Idempotence with ANY formatter: it holds whenever the formatter absorbs the re-layout on the
+       document at hand (ControlWrapP.absorbs_on: on every field its output does not start with a
+       blank or line break and comes back unchanged when fed back behind blanks / line breaks --
+       which is all the re-layout adds) and the comparators do not see what is rewritten.  Something
+       of the kind is needed: the formatter that appends "!" is shaped and appends another "!" on
+       every application. *)
+Theorem C07_formatter_idem_absorbs : forall c psort pcmp esort ecmp g d,
+  ind_ok c = true -> pcmp_agrees psort pcmp -> ecmp_agrees esort ecmp -> wf_doc d = true ->
+  doc_shaped (Some g) (lift d) -> absorbs_on g (lift d) ->
+  pair_cmp_consistent ecmp -> para_cmp_consistent pcmp ->
+  ecmp_invariant_on ecmp (Some g) (lift d) -> pcmp_invariant_on pcmp ecmp (Some g) (lift d) ->
+  let l1 := a_ws_doc pcmp (a_ws_items c ecmp (Some g)) (lift d) in
+  std_ws fixed c psort esort (Some (pure_fmt g)) (ltree_of l1) = Ok (ltree_of l1).
+Proof. exact absorbs_on_idem_proof. Qed.
+Check C07_formatter_idem_absorbs : forall c psort pcmp esort ecmp g d,
+  ind_ok c = true -> pcmp_agrees psort pcmp -> ecmp_agrees esort ecmp -> wf_doc d = true ->
+  doc_shaped (Some g) (lift d) -> absorbs_on g (lift d) ->
+  pair_cmp_consistent ecmp -> para_cmp_consistent pcmp ->
+  ecmp_invariant_on ecmp (Some g) (lift d) -> pcmp_invariant_on pcmp ecmp (Some g) (lift d) ->
+  let l1 := a_ws_doc pcmp (a_ws_items c ecmp (Some g)) (lift d) in
+  std_ws fixed c psort esort (Some (pure_fmt g)) (ltree_of l1) = Ok (ltree_of l1).
+Print Assumptions C07_formatter_idem_absorbs.
+
+Theorem C07_formatter_idem_needs_premise :
+  doc_shaped (Some WF.bang) (lift WF.d_bang) /\
+  exists t1 t2, std_ws fixed WF.c2 None None (Some (pure_fmt WF.bang)) (tree_of WF.d_bang) = Ok t1 /\ text t1 = WF.once /\
+                std_ws fixed WF.c2 None None (Some (pure_fmt WF.bang)) t1 = Ok t2 /\ text t2 = WF.twice.
+Proof. exact bang_not_idempotent. Qed.
+Check C07_formatter_idem_needs_premise :
+  doc_shaped (Some WF.bang) (lift WF.d_bang) /\
+  exists t1 t2, std_ws fixed WF.c2 None None (Some (pure_fmt WF.bang)) (tree_of WF.d_bang) = Ok t1 /\ text t1 = WF.once /\
+                std_ws fixed WF.c2 None None (Some (pure_fmt WF.bang)) t1 = Ok t2 /\ text t2 = WF.twice.
+Print Assumptions C07_formatter_idem_needs_premise.
+
 (* ---------------------------------------------------------------- non-vacuity *)
 Module Examples.
   Import Coq.Strings.String.
